@@ -134,7 +134,7 @@ class Cached:
         for l in self.leaves:
             E = self.evs[id(l)]
             if len(E.gets) != 1:
-                self.v("shape", "expected exactly one cache lookup, found %d" % len(E.gets), "a path of the wrapper looks the cache up %d times" % len(E.gets))
+                self.v("lookup", "expected exactly one cache lookup, found %d" % len(E.gets), "a path of the wrapper looks the cache up %d times (the lookup must come first, once, on every path)" % len(E.gets))
                 continue
             gi, gev = E.gets[0]
             g = gev[0]
